@@ -6,6 +6,27 @@ ENV = "GOFLAGS=-mod=mod GOPROXY=off GOSUMDB=off GOTOOLCHAIN=local GOWORK=off"
 
 # property -> (claimed?, technique, level text, level note, design_ref)
 CHECKS = {
+ "C03": ("custody pairing by value on every committed path + guard dominance",
+         "Decides the inductive-step structure of 'deposit balance = sum of recorded deposits': every stored change of a binding's Deposit is paired, on the same path and by the same value term, "
+         "with exactly one custody operation on the deposit account (and vice versa), refunds are dominated by owner/unavailable/non-zero/time guards with the stated time skeleton, payer = signer. "
+         "A structural necessary condition; the numeric equality itself is not decided.",
+         "A-SDK (bank moves exactly the coins given; Coins arithmetic). Trusted base: go/types, x/tools v0.29.0, svclint rule tables.",
+         "DESIGN.md §4 C03"),
+ "C04": ("who-may-call + exact trigger separation + amount skeleton",
+         "Decides that the deposit burn is reached only from the respond message under the malformed-output predicate and from end-of-block under not-SuperMode of the expired request, that in each calling unit "
+         "slashing and non-slashing paths are separated exactly by that predicate, slash iff refund, the amount skeleton, post-slash auto-disable and persistence. Arithmetic is not decided.",
+         "A-SDK. Trusted base: go/types, x/tools v0.29.0, svclint rule tables.",
+         "DESIGN.md §4 C04"),
+ "C05": ("interprocedural guard dominance over handler effect summaries",
+         "For every message type (exhaustive) every state-changing effect reachable from its handler is dominated by the authority fact of its class, expressed over the message's own fields, "
+         "and every debit of an ordinary account has the signer as payer (end-block: the consumer of the dequeued context). Holds for every path of every handler, hence every history.",
+         "A-SDK (ValidateBasic before handler; failed messages revert). Trusted base: go/types, x/tools v0.29.0, svclint rule tables.",
+         "DESIGN.md §4 C05"),
+ "C14": ("check-before-commit path rule + formula skeleton",
+         "On every committed path persisting a possibly-available binding after a relevant change, the stored deposit is compared with getMinDeposit of the pricing that will be in the store at exit; "
+         "getMinDeposit skeleton; slash auto-disable. Int arithmetic and later parameter changes are not decided.",
+         "A-SDK. Trusted base: go/types, x/tools v0.29.0, svclint rule tables.",
+         "DESIGN.md §4 C14"),
  "C18": ("key-grammar decision + layout agreement",
          "Decides, for all byte strings under the stated segment typing, that store keys parse uniquely, prefix scans are exact sub-spaces, "
          "key slicing cuts at segment boundaries, and id writer/reader layouts agree; a grammar decision over all inputs rather than a sample. "
